@@ -20,9 +20,11 @@ A trigger is its key `k : Nat`: Python stores the tuple `(callable, args, kwargs
 `list.remove` / `in` compare by `==`, so two registrations with equal tuples are
 indistinguishable to the code — `List.erase` / `∈` on keys mirror exactly that.
 
-Ops that make no sense where they are consumed (a `ret` at top level, a `fire` or `fireD` issued
-from inside a trigger — nested firing is outside this model) are ignored and logged as
-`ignored`; the harness skips them in the same way.
+Ops that make no sense where they are consumed (a `ret` at top level, a `fire` issued from inside
+a trigger — nested firing is outside this model — and a `fireD` issued from inside a trigger once
+firings have overlapped, because that could complete an older DeferredList and so nest a
+`_continueFiring` inside the trigger) are ignored and logged as `ignored`; the harness skips them
+in the same way.  A `fireD` from inside a trigger without overlapping firings is `fireDIn`.
 -/
 namespace Twisted.Reactor.ThreePhase
 
@@ -33,7 +35,7 @@ inductive Phase where
 /-- what a trigger callable does when its body ends -/
 inductive Res where
   | none                 -- returns a non-Deferred
-  | raise                -- raises an Exception (logged by `_systemEventHandler`, result stays None)
+  | raise                -- raises (any BaseException: `_systemEventHandler.__exit__` returns True; result stays None)
   | deferred (d : Nat)   -- returns Deferred number `d` (possibly already fired)
   deriving DecidableEq, Repr
 
@@ -42,7 +44,7 @@ inductive Op where
   | remove (ph : Phase) (k : Nat)   -- removeTrigger((ph, f, (k,), {}))
   | fire                            -- fireEvent()          (top level only)
   | ret (r : Res)                   -- the running trigger finishes
-  | fireD (d : Nat)                 -- Deferred d .callback/.errback  (top level only)
+  | fireD (d : Nat)                 -- Deferred d .callback/.errback  (top level, or inside a trigger: `fireDIn`)
   deriving DecidableEq, Repr
 
 inductive Ctl where
@@ -170,11 +172,25 @@ def fireD (s : St) (d : Nat) : St :=
   | 0 => s'
   | n + 1 => contLoop n s'
 
+/-- `Deferred.callback/.errback` called from inside a trigger body (a later before-trigger firing
+    the Deferred an earlier one returned, a during-trigger firing some Deferred, …) while no earlier
+    firing of this event is waiting: the running `fireEvent` has not built its `DeferredList` yet
+    (that happens after the `while self.before` loop) and `_continueFiring` runs only once the
+    DeferredList is gone, so nothing of this event is attached to the Deferred — it just becomes
+    fired; `endBefore` later leaves it out of the list to wait for.  (`waiting = []` whenever a
+    trigger runs and `overlapped = false`: `TwistedProps.C12.in_trigger_nothing_waits`.) -/
+def fireDIn (s : St) (d : Nat) : St :=
+  if s.fired.contains d then s.emit (.already d)
+  else { s with fired := s.fired ++ [d], log := s.log ++ [.dfired d] }
+
 def step (s : St) : Op → St
   | .add ph k => (s.set ph (s.get ph ++ [k])).emit (.added ph k)
   | .remove ph k => remove s ph k
   | .fire => if s.ctl = .idle then fire s else s.emit .ignored
-  | .fireD d => if s.ctl = .idle then fireD s d else s.emit .ignored
+  | .fireD d =>
+    if s.ctl = .idle then fireD s d
+    else if s.overlapped then s.emit .ignored
+    else fireDIn s d
   | .ret r =>
     match s.ctl with
     | .idle => s.emit .ignored
